@@ -111,6 +111,23 @@ def scan_contract(path):
     return sorted(set(items))
 
 
+def harness_local(pid, cfg):
+    """the harness's own source files (the bin and what it includes from /verif/harness): contracts DEFINED in the
+    harness that implement a library contract trait get that trait's default methods as entry points too"""
+    files = [os.path.join(ROOT, "harness", "src", "bin", cfg["bin"] + ".rs")]
+    seen = []
+    while files:
+        f = files.pop()
+        if f in seen or not os.path.exists(f):
+            continue
+        seen.append(f)
+        for m in re.finditer(r'#\[path\s*=\s*"([^"]+)"\]', open(f).read()):
+            p = m.group(1)
+            if not p.startswith("/repo/"):
+                files.append(os.path.normpath(os.path.join(os.path.dirname(f), p)))
+    return sorted(seen)
+
+
 def harness_sources(pid, cfg):
     files = [os.path.join(ROOT, "harness", "src", "bin", cfg["bin"] + ".rs")]
     out = []
@@ -135,6 +152,10 @@ def inventory(pid):
     for rel in harness_sources(pid, cfg):
         p = os.path.join(REPO, rel)
         inv[rel] = scan_contract(p) if os.path.exists(p) else ["<missing>"]
+    for f in harness_local(pid, cfg):
+        items = [x for x in scan_contract(f) if x.startswith(("trait:", "trait-fn:", "trait-methods:"))]
+        if items:
+            inv["harness:" + os.path.relpath(f, os.path.join(ROOT, "harness"))] = items
     return inv
 
 
